@@ -660,6 +660,20 @@ def overlong_via_pointer():
     run = b"\x01a" * 3000 + b"\x00"
     fanq = [run + b"\x00\x01\x00\x01"] + [struct.pack(">H", 0xC000 | (12 + 2 * i)) + b"\x00\x01\x00\x01" for i in range(0, 300)]
     over.append(S.d("Dns", msg_wire(qd=fanq)))
+    # chains in which every hop also contributes a label: `01 a c0 <next>` x hops, then the terminator
+    for hops in list(range(1, 41)) + [60, 100, 126]:
+        def chain(base):
+            body = bytearray()
+            for i in range(hops):
+                body += b"\x01a" + struct.pack(">H", 0xC000 | (base + 4 * (i + 1)))
+            return bytes(body) + b"\x00"
+        # as the RDATA of a NULL record behind a question whose name points (forwards) at the chain
+        base = 12 + 6 + 11
+        q = struct.pack(">H", 0xC000 | base) + b"\x00\x01\x00\x01"
+        over.append(S.d("Dns", msg_wire(qd=[q], an=[rr_wire(10, 1, 0, chain(base))])))
+        over.append(S.d("DomainName", chain(0)))
+    over.append(S.d("DomainName", b"\xc0\x02\x01a\xc0\x02"))
+    over.append(S.d("DomainName", b"\x01b\xc0\x04\x01a\xc0\x00"))
     # exactly maximal (255) and just over (256..258) names reached through a BARE pointer and through a 2-pointer chain
     for total in range(252, 259):
         def labs2(n):
